@@ -70,6 +70,15 @@ prop('C05', 'model_checking',
      'tier all; ' + TOOL_NOTE,
      'TLA+ scenario spec + TLC + exhaustive replay', 'section 5 C05')
 
+prop('C04', 'model_checking',
+     'SPTime.tla models the five time checks of the SP in code order over integer seconds and the contract of the property '
+     '(edges left open); TLC checks pipeline against contract on 33 024 scenarios (subset of optional bounds x focused bound x '
+     'distance from its edge x allowance multiples x allowance x spelling) including the session-expiry value; scenarios are '
+     'rendered from templates and replayed into the real SP under a virtual clock, verdict and session_info()[not_on_or_after] '
+     'compared with the contract',
+     'virtual clock by rebinding saml2_tophat.time_util.time/datetime; unsigned responses; quick tier replays a seeded quarter',
+     'TLA+ scenario spec + TLC + exhaustive replay', 'section 5 C04')
+
 
 def main():
     props = [json.loads(l) for l in open(os.path.join(VERIF, 'properties.jsonl'))]
